@@ -31,7 +31,8 @@ pub mod wal;
 
 pub use batch::{Batch, BatchRef, ShardInfo, ShardMeta, Update};
 pub use consolidate::{
-    consolidate, consolidate_to_current, filter_since, to_tuples, to_tuples_with_multiplicity,
+    consolidate, consolidate_to_current, filter_since, to_current_set, to_tuples,
+    to_tuples_with_multiplicity,
 };
 pub use wal::PersistWal;
 
